@@ -95,6 +95,8 @@ func c19(c *core.Check) {
 
 	c19Merge(c)
 	c19Descriptors(c)
+	c19Ranges(c)
+	c19Copy(c)
 	r1 := c.Rule("R1", "every integer / and % of css/counters has a divisor proven non-zero, and every % whose result indexes a list has a dividend proven non-negative (Go's % keeps the sign of the dividend)", 12)
 	divisionRule(c, r1, inPkgs("css/counters"))
 	// the sign is accounted for in the padding exactly when it is written: both steps test isNegative && useNegative
@@ -666,4 +668,150 @@ func atomValue(p *core.Prog, name string) (int64, bool) {
 		}
 	}
 	return 0, false
+}
+
+// c19Ranges: the range descriptor is a set of ranges, tested one by one.
+func c19Ranges(c *core.Check) {
+	p := c.Prog
+	r := c.Rule("R8", "a counter style applies to a value when the value lies in one of its ranges, whatever their order: the loop of renderValue over the ranges is left early only by the break that records a match (an exit on `value < lower bound` assumes sorted ranges, which `range: 7 9, 1 3` is not)", 1)
+	fn := p.Method("css/counters", "CounterStyle", "renderValue")
+	if fn == nil {
+		r.Anchor("css/counters.CounterStyle.renderValue")
+		return
+	}
+	n := 0
+	for _, l := range core.Loops(fn) {
+		// the loop over the ranges: its body indexes elements of type [2]int
+		isRanges := false
+		for b := range l.Blocks {
+			for _, in := range b.Instrs {
+				if ia, ok := in.(*ssa.IndexAddr); ok {
+					if pt, ok := ia.X.Type().Underlying().(*types.Pointer); ok {
+						if at, ok := pt.Elem().Underlying().(*types.Array); ok && at.Len() == 2 {
+							isRanges = true
+						}
+					}
+				}
+				if ix, ok := in.(*ssa.Index); ok {
+					if at, ok := ix.X.Type().Underlying().(*types.Array); ok && at.Len() == 2 {
+						isRanges = true
+					}
+				}
+			}
+		}
+		if !isRanges {
+			continue
+		}
+		n++
+		var bad []string
+		for b := range l.Blocks {
+			if b == l.Header {
+				continue
+			}
+			for _, s := range b.Succs {
+				if l.Blocks[s] {
+					continue
+				}
+				// an early exit: the merge after the loop must receive `true` for the match flag on this edge
+				matched := false
+				from := b
+				for len(s.Instrs) == 1 && len(s.Succs) == 1 { // the `found = true; break` block is a bare jump to the merge
+					from, s = s, s.Succs[0]
+				}
+				for _, in := range s.Instrs {
+					phi, ok := in.(*ssa.Phi)
+					if !ok {
+						break
+					}
+					for i, pred := range s.Preds {
+						if pred == from {
+							if k, isK := phi.Edges[i].(*ssa.Const); isK && k.Value != nil && k.Value.String() == "true" {
+								matched = true
+							}
+						}
+					}
+				}
+				if !matched {
+					pos := "-"
+					for _, in := range b.Instrs {
+						if in.Pos().IsValid() {
+							pos = p.Pos(in.Pos())
+						}
+					}
+					bad = append(bad, pos)
+				}
+			}
+		}
+		sort.Strings(bad)
+		r.Cond(len(bad) == 0, "css/counters.renderValue | loop over the ranges", p.Pos(l.Header.Instrs[0].Pos()), "left early only on a match", "the loop over the ranges is also left without a match at "+strings.Join(bad, ", ")+": the ranges after that point are never tested")
+	}
+	if n == 0 {
+		r.Anchor("renderValue: loop over the [2]int ranges")
+	}
+}
+
+// c19Copy: a snapshot of the counter values must not share memory with the running values.
+func c19Copy(c *core.Check) {
+	p := c.Prog
+	r := c.Rule("R9", "snapshots of counter values are independent: CounterValues.Copy stores a freshly allocated copy of every stack — counter-increment and counter-set change the top of a stack in place, so a shared backing array would let later increments show through target-counter() and cached values", 1)
+	fn := p.Method("html/tree", "CounterValues", "Copy")
+	if fn == nil {
+		r.Anchor("html/tree.CounterValues.Copy")
+		return
+	}
+	n := 0
+	core.Instrs(fn, func(in ssa.Instruction) {
+		mu, ok := in.(*ssa.MapUpdate)
+		if !ok {
+			return
+		}
+		n++
+		why := freshCopy(mu.Value, 0)
+		r.Cond(why == "", "html/tree.CounterValues.Copy | stored stack", p.Pos(mu.Pos()), "a fresh slice (append to an empty slice, or make and copy)", "the copy stores "+why+": it shares its backing array with the original")
+	})
+	if n == 0 {
+		r.Anchor("CounterValues.Copy: store into the result map")
+	}
+}
+
+// freshCopy: "" when the slice value is newly allocated in the function (append onto an empty / nil / made slice).
+func freshCopy(v ssa.Value, depth int) string {
+	if depth > 5 {
+		return "a value of unknown origin"
+	}
+	switch x := v.(type) {
+	case *ssa.MakeSlice:
+		return ""
+	case *ssa.Call:
+		if b, ok := x.Call.Value.(*ssa.Builtin); ok && b.Name() == "append" {
+			// append(base, …): fresh when base is nil, an empty literal or itself fresh
+			switch base := x.Call.Args[0].(type) {
+			case *ssa.Const:
+				return ""
+			case *ssa.Slice:
+				if al, ok := base.X.(*ssa.Alloc); ok {
+					if at, ok := al.Type().(*types.Pointer).Elem().Underlying().(*types.Array); ok && at.Len() == 0 {
+						return ""
+					}
+				}
+				return freshCopy(base, depth+1)
+			default:
+				return freshCopy(base, depth+1)
+			}
+		}
+		return "the result of a call"
+	case *ssa.Slice:
+		if _, isAlloc := x.X.(*ssa.Alloc); isAlloc {
+			return ""
+		}
+		return "a re-slice of " + exprName(x.X)
+	case *ssa.Phi:
+		for _, e := range x.Edges {
+			if why := freshCopy(e, depth+1); why != "" {
+				return why
+			}
+		}
+		return ""
+	}
+	return "the value " + exprName(v) + " itself"
 }
